@@ -89,7 +89,7 @@ PRELUDE = """\
 from guppylang import guppy, qubit, array
 from guppylang.std.angles import angle
 from guppylang.std.builtins import owned
-from pytket import Circuit
+from pytket import Circuit, Qubit, Bit
 from sympy import Symbol
 """
 
@@ -107,8 +107,41 @@ EXTRA_Q = [(("k", 1), ("g", 1), ("h", 1)), (("r", 3),), (("h", 3), ("g", 1)), ((
 EXTRA_C = [(("d", 2), ("c", 1)), (("e", 1), ("d", 1), ("c", 1)), (("c", 3),)]
 
 
+# symbol names whose lexicographic (code point) order differs from case-insensitive / natural-number order
+EXTRA_SYMS = [("alpha", "Zeta"), ("a9", "a10"), ("b", "C", "a")]
+# SPARSE units: a register "size" given as a tuple lists the unit indices that exist (Circuit.add_qubit(Qubit(name, i)),
+# or what remove_blank_wires leaves behind); pytket's q_registers / c_registers omit such incomplete registers
+SPARSE_Q = [(("q", (0, 2)),), (("b", (0,)), ("a", (1,))), (("b", 2), ("a", (1,))), (("a", (0, 1, 3)),)]
+SPARSE_C = [(), (("m", (2,)),), (("c", 2),), (("d", 1), ("c", (1,)))]
+
+
+def _n(size):
+    return size if isinstance(size, int) else len(size)
+
+
+def _units(size):
+    return list(range(size)) if isinstance(size, int) else list(size)
+
+
+def is_sparse(spec):
+    return any(not isinstance(sz, int) for _, sz in spec[0] + spec[2])
+
+
+def _decl(ln, kind, name, size):
+    """Appends the lines creating one register; returns the expressions denoting its units."""
+    if isinstance(size, int):
+        ln.append(f"_{kind}_{name} = circ.add_{kind}_register({name!r}, {size})")
+        return [f"_{kind}_{name}[{i}]" for i in range(size)]
+    cls, add = ("Qubit", "add_qubit") if kind == "q" else ("Bit", "add_bit")
+    for i in size:
+        ln.append(f"circ.{add}({cls}({name!r}, {i}))")
+    return [f"{cls}({name!r}, {i})" for i in size]
+
+
 def circuits():
     base = [(q, s, c) for q in QLAYOUTS for s in SYMS for c in CLAYOUTS]
+    base += [(q, s, c) for q in ((("r", 2),), (("b", 1), ("a", 2))) for s in EXTRA_SYMS for c in ((), (("c", 1),))]
+    base += [(q, s, c) for q in SPARSE_Q for s in ((), ("zz", "al")) for c in SPARSE_C]
     if not THOROUGH[0]:
         return base
     seen = set(base)
@@ -122,12 +155,10 @@ def circuit_src(spec):
     ln = ["circ = Circuit()"]
     qs = []
     for name, size in qregs:
-        ln.append(f"_q_{name} = circ.add_q_register({name!r}, {size})")
-        qs += [f"_q_{name}[{i}]" for i in range(size)]
+        qs += _decl(ln, "q", name, size)
     bs = []
     for name, size in cregs:
-        ln.append(f"_c_{name} = circ.add_c_register({name!r}, {size})")
-        bs += [f"_c_{name}[{i}]" for i in range(size)]
+        bs += _decl(ln, "c", name, size)
     ln.append(f"circ.X({qs[0]})")
     if len(qs) > 1:
         ln.append(f"circ.CX({qs[0]}, {qs[-1]})")
@@ -140,7 +171,7 @@ def circuit_src(spec):
 
 def shape(spec):
     qregs, syms, cregs = spec
-    return sum(s for _, s in qregs), len(syms), sum(s for _, s in cregs)
+    return sum(_n(s) for _, s in qregs), len(syms), sum(_n(s) for _, s in cregs)
 
 
 def bools_ty(n):
@@ -170,7 +201,7 @@ def stub_variants(spec):
         out.append(("float-params", flat_sig(nq, ns, nb, pty="float"), "either"))
     if nb:
         out.append(("bools-1", flat_sig(nq, ns, nb - 1), "reject"))
-    arr = [f"{n}: array[qubit, {s}]" for n, s in sorted(qregs)] + [f"p{i}: angle" for i in range(ns)]
+    arr = [f"{n}: array[qubit, {_n(s)}]" for n, s in sorted(qregs)] + [f"p{i}: angle" for i in range(ns)]
     out.append(("arrays", (", ".join(arr), bools_ty(nb)), "reject"))
     out.append(("owned-qubits", flat_sig(nq, ns, nb, qty="qubit @owned"), "either"))
     return out
@@ -180,6 +211,9 @@ def array_call(spec, lexicographic=True):
     """(params, ret, args) of a caller of the use_arrays=True function."""
     qregs, syms, cregs = spec
     regs = sorted(qregs) if lexicographic else list(qregs)
+    # incomplete registers are not among pytket's q_registers / c_registers: a caller can at most pass the complete ones
+    regs = [(n, s) for n, s in regs if isinstance(s, int)]
+    cregs = [(n, s) for n, s in cregs if isinstance(s, int)]
     params = [f"{n}: array[qubit, {s}]" for n, s in regs]
     args = [n for n, _ in regs]
     if syms:
@@ -197,9 +231,11 @@ def cases():
         for name, _sig, exp in stub_variants(spec):
             out.append({"circ": ci, "mode": "stub", "variant": name, "expect": exp})
         out.append({"circ": ci, "mode": "load-flat", "variant": "right", "expect": "accept"})
-        out.append({"circ": ci, "mode": "load-arrays", "variant": "lexicographic", "expect": "accept"})
+        # a circuit whose units do not form complete registers has no array shape: rejecting it is fine, accepting it
+        # must still give valid HUGR (and the right behaviour, see part_exec)
+        out.append({"circ": ci, "mode": "load-arrays", "variant": "lexicographic", "expect": "either" if is_sparse(spec) else "accept"})
         qregs = spec[0]
-        if len(qregs) == 2 and qregs[0][1] != qregs[1][1]:
+        if len(qregs) == 2 and qregs[0][1] != qregs[1][1] and not is_sparse(spec):
             out.append({"circ": ci, "mode": "load-arrays", "variant": "creation-order", "expect": "reject"})
     return out
 
@@ -266,12 +302,10 @@ def exec_circuit_src(spec, measured):
     ln = ["circ = Circuit()"]
     qs = []
     for name, size in qregs:
-        ln.append(f"_q_{name} = circ.add_q_register({name!r}, {size})")
-        qs += [f"_q_{name}[{i}]" for i in range(size)]
+        qs += _decl(ln, "q", name, size)
     bs = []
     for name, size in cregs:
-        ln.append(f"_c_{name} = circ.add_c_register({name!r}, {size})")
-        bs += [f"_c_{name}[{i}]" for i in range(size)]
+        bs += _decl(ln, "c", name, size)
     if not measured:
         for i, q in enumerate(qs):
             ln.append(f"circ.Rx({0.2 * (i + 1)!r}, {q})")
@@ -315,6 +349,10 @@ def run_exec_case(item):
     fparams = ", ".join([f"q{i}: qubit" for i in range(nq)] + [f"f{i}: float" for i in range(ns)])
     args = ", ".join([f"q{i}" for i in range(nq)] + [f"angle(f{i})" for i in range(ns)])
     arrays = mode == "load-arrays"
+    if arrays and is_sparse(spec):
+        return {"skip": True}          # no array shape; the accept / reject / validity side is in run_case
+    if mode == "reload-after-edit" and is_sparse(spec):
+        return {"skip": True}
     if arrays:
         # use_arrays=True (the default): one array per quantum register in lexicographic register order, the
         # symbols as one array, one bool array per classical register
